@@ -98,6 +98,14 @@ class Ctx:
             self.fail(rule, fn, node, message, construct=construct)
         return cond
 
+    def check_folded(self, value: Any, cond: bool, rule: str, fn: Optional[FunctionInfo], node: Optional[ast.AST], instance: str,
+                     message: str, detail: str = "", construct: Optional[str] = None) -> bool:
+        """like check(), but a value the folder could not decide is an ANALYSIS-ERROR, never a verdict"""
+        if type(value).__name__ == "Unknown":
+            self.errors.append(f"{rule}: {instance}: not foldable ({value!r})")
+            return False
+        return self.check(cond, rule, fn, node, instance, message, detail, construct)
+
     def count(self, rule: str, found: int, minimum: int, what: str = "") -> None:
         """instance minimum confirmed by hand: fewer instances => the rule would pass vacuously => exit 2"""
         self.instances[rule] = {"found": found, "min": minimum}
